@@ -13,3 +13,8 @@ check('C15',
   'Trusted: rayon implements its documented fold/reduce contract; thread_pool_execute indexing; Arc::drop_slow stubbed to a no-op (payload leaked) in these harnesses.',
   'Kani/CBMC bounded model checking of the reducer algebra (schedule = reduction tree made symbolic)',
   'DESIGN.md section 3 C15')
+check('C08',
+  'Inductive-step bounded model checking of the real population code for the instantiation Greedy<Obj,Sol>/Elitism<Obj,Sol> (scalar fitness from i16, total_cmp objective): from an ARBITRARY valid state (None|Some for Greedy; any sorted state of K individuals for Elitism, sizes case-split) one add / add_all keeps the ranking sorted, the size within max_population_size, every member one of the offered individuals, and the first ranked no worse than everything present or offered; the improvement flag is exact; select() returns only members, the best first, and something whenever non-empty. Elitism runs with a NONDETERMINISTIC dedup predicate (superset of the default). Histories of any length follow by induction over the sorted invariant; the step is what the solver decides.',
+  'Trusted: Kani/CBMC; the instantiation of the generics; Random answers arbitrary values within the documented contract. Rosomaxa population (GSOM, Environment) and seeded full solves are outside.',
+  'Kani/CBMC bounded model checking, inductive step from symbolic pre-state',
+  'DESIGN.md section 3 C08')
